@@ -293,11 +293,14 @@ def _worker(item):
             record({'part': 'opaque', 'raw': name.split('/')[-1], 'case': ci, 'name': name, 'seed': seed}, [{'type': name.split('/')[0]}], n, probs)
     elif kind == 'daqmx':
         for specs in payload:
-            props = R.props_for(specs)
-            enc = F.daqmx_enc(3, [(3, 0, 0, 0, 0), (5, 0, 2, 0, 1)], [8])
-            hist = [G.seg([(A, enc, props), (B, F.daqmx_enc(3, [(1, 0, 7, 0, 0)], [8]), [F._uprop('NI_Number_Of_Scales', 1)])], chunks=2)]
-            n, probs = check_channel_file(hist, specs, 'daqmx', seed, scalers_expected=[0, 1])
-            record({'part': 'daqmx', 'raw': 'daqmx', 'specs': specs, 'seed': seed}, specs, n, probs)
+            # without NI_Number_Of_Scales the count is the highest defined index + 1; the raw scalers themselves define no
+            # NI_Scale[i] properties, so the defined indices start above 0
+            for with_number in (True, False):
+                props = R.props_for(specs, number_of_scales=with_number)
+                enc = F.daqmx_enc(3, [(3, 0, 0, 0, 0), (5, 0, 2, 0, 1)], [8])
+                hist = [G.seg([(A, enc, props), (B, F.daqmx_enc(3, [(1, 0, 7, 0, 0)], [8]), [F._uprop('NI_Number_Of_Scales', 1)])], chunks=2)]
+                n, probs = check_channel_file(hist, specs, 'daqmx', seed, scalers_expected=[0, 1])
+                record({'part': 'daqmx', 'raw': 'daqmx', 'specs': specs, 'with_number': with_number, 'seed': seed}, specs, n, probs)
     return res
 
 
@@ -462,7 +465,8 @@ def replay(case):
     else:
         specs = case['specs']
         enc = F.daqmx_enc(3, [(3, 0, 0, 0, 0), (5, 0, 2, 0, 1)], [8])
-        hist = [G.seg([(A, enc, R.props_for(specs)), (B, F.daqmx_enc(3, [(1, 0, 7, 0, 0)], [8]), [F._uprop('NI_Number_Of_Scales', 1)])], chunks=2)]
+        hist = [G.seg([(A, enc, R.props_for(specs, number_of_scales=case.get('with_number', True))),
+                       (B, F.daqmx_enc(3, [(1, 0, 7, 0, 0)], [8]), [F._uprop('NI_Number_Of_Scales', 1)])], chunks=2)]
         n, probs = check_channel_file(hist, specs, 'daqmx', case.get('seed', 0), scalers_expected=[0, 1])
     if probs:
         return True, 'dataflow evaluation', probs[0][1]
